@@ -541,6 +541,14 @@ func allocMode(a *ssa.Alloc) int {
 					return 1
 				}
 			}
+		case *ssa.Call:
+			// publishing the address of an (immutable) value through an atomic
+			// pointer does not write the local
+			full := StaticFullName(&r.Call)
+			if strings.HasSuffix(full, "atomic.Pointer[T]).Store") || strings.HasSuffix(full, "atomic.Pointer[T]).CompareAndSwap") {
+				continue
+			}
+			return 1
 		default:
 			return 1
 		}
